@@ -137,6 +137,7 @@ type SpecDB struct {
 	ZeroInit  map[string]*zeroInit // type string -> fact about a freshly allocated object ("this")
 	zeroDecls []zeroDecl
 	Immutable map[string]bool // type strings whose referents are never modified (refs are values)
+	Handles   map[string]bool // type strings of opaque values that give access to mutable world state
 	Allocators map[string]bool // ghost vars that only grow (see `allocator`)
 	// Layered: ghost variables indexed (first key) by store layer; viewEq / viewEqOld / view(l) range over them
 	Layered []string
@@ -164,7 +165,7 @@ type opaqueDecl struct {
 }
 
 func newSpecDB() *SpecDB {
-	return &SpecDB{Contracts: map[string]*Contract{}, Ghosts: map[string]*GhostFunc{}, GhostVars: map[string]*GhostVar{}, Immutable: map[string]bool{}, Allocators: map[string]bool{}, ZeroInit: map[string]*zeroInit{}}
+	return &SpecDB{Contracts: map[string]*Contract{}, Ghosts: map[string]*GhostFunc{}, GhostVars: map[string]*GhostVar{}, Immutable: map[string]bool{}, Handles: map[string]bool{}, Allocators: map[string]bool{}, ZeroInit: map[string]*zeroInit{}}
 }
 
 var closureNameRe = regexp.MustCompile(`^(.+)__(\d+)$`)
@@ -198,7 +199,7 @@ func (db *SpecDB) parseSpecFile(file string, pkgPath string) {
 		s  string
 	}
 	var ents []ent
-	topKw := map[string]bool{"allocator": true, "import": true, "package": true, "opaque": true, "immutable": true, "ghost": true, "axiom": true, "func": true, "loop": true, "zeroinit": true, "functype": true, "layered": true}
+	topKw := map[string]bool{"allocator": true, "import": true, "package": true, "opaque": true, "immutable": true, "handle": true, "ghost": true, "axiom": true, "func": true, "loop": true, "zeroinit": true, "functype": true, "layered": true}
 	for i, raw := range lines {
 		l := strings.TrimSpace(raw)
 		var body string
@@ -257,7 +258,7 @@ func (db *SpecDB) parseSpecFile(file string, pkgPath string) {
 			} else {
 				errf(en.ln, "bad import")
 			}
-		case "opaque", "immutable":
+		case "opaque", "immutable", "handle":
 			r := strings.TrimSpace(strings.TrimPrefix(rest, "type"))
 			var same *TypeExpr
 			if i := strings.Index(r, "="); i > 0 {
@@ -276,6 +277,10 @@ func (db *SpecDB) parseSpecFile(file string, pkgPath string) {
 			}
 			if w == "opaque" {
 				db.Opaque = append(db.Opaque, opaqueDecl{T: te, PkgPath: pkgPath, Imports: copyMap(imports), SameAs: same})
+			} else if w == "handle" {
+				// handle type T: a value of this (opaque) type gives access to mutable world state (sdk.Context: every store
+				// layer): handing it to a callee without a contract havocs everything
+				db.Opaque = append(db.Opaque, opaqueDecl{T: &TypeExpr{Kind: "handle", V: te}, PkgPath: pkgPath, Imports: copyMap(imports)})
 			} else {
 				db.Opaque = append(db.Opaque, opaqueDecl{T: &TypeExpr{Kind: "immutable", V: te}, PkgPath: pkgPath, Imports: copyMap(imports)})
 			}
